@@ -61,6 +61,9 @@ def configs(tier):
                     out.append({'raw': raw, 'H': H, 'first': first, 'second': second})
             else:
                 out.append({'raw': raw, 'H': H if not raw else 2, 'first': first})
+    # dataset without a spike-cluster file (it is created from the templates at load time)
+    for first in (0, 1):
+        out.append({'raw': False, 'H': 2, 'first': first, 'nosc': True})
     return out
 
 
@@ -132,6 +135,8 @@ def run_config(cfg, e):
     e.hash_concretize = True
     dcfg = {'ns': 3, 'T': 2, 'nc': 3, 'nsw': 2, 'names': 'ks', 'sym': [], 'wm': 'I',
             'optional': {'pc_features': 'no', 'template_features': 'no'}}
+    if cfg.get('nosc'):
+        dcfg['optional']['spike_clusters'] = 'no'
     if cfg['raw']:
         dcfg.update(raw=True, ncd=4, raw_parts=2)
         dcfg['optional']['raw'] = 'yes'
